@@ -444,10 +444,13 @@ Property prop_C13(const std::string& variant) {
         o.max_classes = 12;
         o.max_methods = 4;
         o.max_defs = 6;
+        // several records per class exercise the decoder's "already
+        // decoded" path
+        o.canonical_presentation = ch.chance(1, 2);
         c.spec = gen_spec(ch, o, size);
         return c;
     };
-    return make_spec_property("C13", variant, gen, run_encode, true, true);
+    return make_spec_property("C13", variant, gen, run_encode, false, true);
 }
 
 } // namespace e1
